@@ -373,6 +373,34 @@ class ExactCollections:
             if fac in ("list", "dict") or not node.args:
                 return [("ok",) + self.alloc(state, node, "ddict:%s" % fac if fac else "dict", DictV(()))]
             return ok(TOP)
+        if isinstance(f, ast.Name) and f.id == "dict" and len(args) <= 1:
+            d = None
+            if not args:
+                d = DictV(())
+            else:
+                src = args[0]
+                sc = content(src, state) if isinstance(src, Ref) else src
+                if isinstance(sc, DictV):
+                    d = sc
+                elif isinstance(sc, TupleV) and all(isinstance(p, TupleV) and len(p.items) == 2 for p in sc.items):
+                    d = DictV(())
+                    for p in sc.items:
+                        d = dict_set(d, p.items[0], p.items[1]) if d is not TOP else TOP
+            # dict(a=1, **m): keyword arguments are entries, in order, after the positional source
+            for k, v in (kwargs or {}).items():
+                if d is None or d is TOP:
+                    break
+                if k.startswith("**"):
+                    mc = content(v, state) if isinstance(v, Ref) else v
+                    if not isinstance(mc, DictV):
+                        d = None
+                        break
+                    for kk, vv in mc.items:
+                        d = dict_set(d, kk, vv) if d is not TOP else TOP
+                else:
+                    d = dict_set(d, Const(k), v)
+            if d is not None and d is not TOP:
+                return [("ok",) + self.alloc(state, node, "dict", d)]
         if isinstance(f, ast.Name) and not kwargs:
             if f.id == "next" and 1 <= len(args) <= 2 and isinstance(args[0], GenV):
                 g = args[0]
@@ -414,18 +442,6 @@ class ExactCollections:
                 seq = self._seq(args[0], state)
                 if seq is not None:
                     return [("ok",) + self.alloc(state, node, "list", TupleV(tuple(seq)))]
-            if f.id == "dict" and len(args) <= 1:
-                if not args:
-                    return [("ok",) + self.alloc(state, node, "dict", DictV(()))]
-                src = args[0]
-                sc = content(src, state) if isinstance(src, Ref) else src
-                if isinstance(sc, DictV):
-                    return [("ok",) + self.alloc(state, node, "dict", sc)]
-                if isinstance(sc, TupleV) and all(isinstance(p, TupleV) and len(p.items) == 2 for p in sc.items):
-                    d = DictV(())
-                    for p in sc.items:
-                        d = dict_set(d, p.items[0], p.items[1]) if d is not TOP else TOP
-                    return [("ok",) + self.alloc(state, node, "dict", d)]
             if f.id == "zip" and len(args) == 2:
                 a, b = self._seq(args[0], state), self._seq(args[1], state)
                 if a is not None and b is not None:
